@@ -314,7 +314,7 @@ impl Property for C07 {
     fn runs(&self, tier: Tier) -> u64 {
         match tier {
             Tier::Quick => 30_000,
-            Tier::Thorough => 1_500_000,
+            Tier::Thorough => 6_000_000,
         }
     }
 
